@@ -65,3 +65,14 @@ func vhNewBasicStorage() *BasicSlabStorage {
 }
 
 func errorsAs(err error, target any) bool { return errors.As(err, target) }
+
+// vhThreshold sets the slab size: symbolic over the whole legal range when the
+// harness parameter symT is 1, else the smallest legal size (256), where tree
+// restructuring needs the fewest elements.
+func vhThreshold() {
+	T := uint32(256)
+	if vhParam("symT", 0) == 1 {
+		T = vhRange32("T", 256, 32768)
+	}
+	vhSetThreshold(T)
+}
